@@ -136,7 +136,12 @@ type Act struct {
 	NewKey string
 	N      int  // bulk: number of rows
 	FailCb bool // insert callback returns an error (the body then returns it)
-	Yield  bool // yield to the scheduler before this action (SCHED drivers)
+	// Swallow: with FailCb, the body ignores the insert's error and goes on. What
+	// becomes of the failed insert's own offset is not fixed by the properties: the
+	// model follows the implementation on that single point (see World.Txn) so that
+	// the REST of such a transaction can be judged.
+	Swallow bool
+	Yield   bool // yield to the scheduler before this action (SCHED drivers)
 }
 
 func (a Act) String() string {
@@ -154,6 +159,9 @@ func (a Act) String() string {
 	}
 	if a.FailCb {
 		sb.WriteString("!cb-error")
+	}
+	if a.Swallow {
+		sb.WriteString("(ignored)")
 	}
 	for _, w := range a.W {
 		switch {
@@ -439,9 +447,10 @@ type pendWrite struct {
 }
 
 type pending struct {
-	ins    []uint32
-	del    []uint32
-	writes []pendWrite
+	ins       []uint32
+	del       []uint32
+	writes    []pendWrite
+	swallowed []uint32 // offsets of failed inserts whose error the body ignored
 }
 
 func (w *World) applyWrites(txn *column.Txn, r column.Row, off uint32, ws []Write, p *pending) {
@@ -484,6 +493,10 @@ func (w *World) body(acts []Act, fail bool, p *pending, res *TxnRes) func(txn *c
 				if err != nil {
 					// drop the writes of the failed insert from the pending set
 					p.dropWritesAt(off)
+					if a.Swallow {
+						p.swallowed = append(p.swallowed, off)
+						continue
+					}
 					return err
 				}
 				w.noteInsert(off, p, res)
@@ -718,10 +731,54 @@ func (w *World) Txn(acts []Act, fail bool) (res TxnRes) {
 	if res.Err == nil {
 		w.ApplyPending(&p)
 		res.Blocks = p.blocks()
+		// unspecified point: does the offset of a failed insert whose error was ignored
+		// hold an (empty) row after the commit? The model takes the implementation's answer.
+		for _, off := range p.swallowed {
+			if _, live := w.M.Live[off]; live {
+				continue
+			}
+			isLive := false
+			w.C.Query(func(txn *column.Txn) error {
+				return txn.Range(func(i uint32) {
+					if i == off {
+						isLive = true
+					}
+				})
+			})
+			if isLive {
+				// ... and with whatever values the implementation kept for it
+				row := &Row{V: map[string]Val{}}
+				cols := append([]ColDef{}, w.M.Cols...)
+				if !w.Cfg.NoExpire {
+					cols = append(cols, ColDef{Name: ExpireCol, Kind: "int64"})
+				}
+				w.C.QueryAt(off, func(r column.Row) error {
+					for _, c := range cols {
+						if v, ok := w.M.Col(c.Name).Read(r, c.Name); ok {
+							row.V[c.Name] = v
+						}
+					}
+					return nil
+				})
+				w.M.Live[off] = row
+			}
+			res.Blocks = appendBlock(res.Blocks, off>>14)
+		}
 	}
 	w.Drain()
 	res.Emitted = len(w.Commits) - res.emittedBase
 	return res
+}
+
+func appendBlock(bs []uint32, b uint32) []uint32 {
+	for _, x := range bs {
+		if x == b {
+			return bs
+		}
+	}
+	bs = append(bs, b)
+	sort.Slice(bs, func(i, j int) bool { return bs[i] < bs[j] })
+	return bs
 }
 
 // blocks lists, ascending, the blocks in which operations were buffered.
